@@ -41,8 +41,16 @@ type ctx struct {
 	rootDetGlobals map[*ssa.Global]bool
 	pure           map[*ssa.Function]bool
 	tupleMemo      map[string][]kind
+	curFvElems     map[int][]elemFn // detector lists captured by the closure analysed next (combinators)
+	curTag         string           // ... and a tag that distinguishes that closure instance in the memo
 	tupleWhy       map[string][]string
 	curFvK         []kind // kinds of the captured variables for the next analyseCtx call (closures created by detectors)
+}
+
+// elemFn is one element of a list of detectors captured by a combinator closure.
+type elemFn struct {
+	fn *ssa.Function
+	g  *ssa.Global // the package-level detector variable the element was read from (nil: a function constant)
 }
 
 type fnResult struct {
@@ -65,6 +73,7 @@ type analysis struct {
 	why      []string
 	handover []string
 	resIdx   int // the result position being judged (tuple helpers)
+	fvElems  map[int][]elemFn
 }
 
 func isBool(t types.Type) bool {
@@ -576,11 +585,46 @@ func (a *analysis) call(c *ssa.Call) kind {
 		return kTop
 	}
 	if callee == nil {
+		// call of an element of a captured list of detectors (anyOf(d1, d2)): any of them may be the callee
+		if els := a.elemsOf(c.Call.Value); els != nil {
+			res := kStable
+			for _, e := range els {
+				var r fnResult
+				if e.g != nil {
+					r = a.c.analyseGlobal(e.g, e.fn, ks)
+				} else {
+					r = a.c.analyse(e.fn, ks)
+				}
+				if len(r.handover) > 0 && !a.isUnmodifiedInput(c.Call.Args[0]) {
+					return kTop
+				}
+				a.handover = append(a.handover, r.handover...)
+				k := r.ret
+				if k == kU && e.g != nil && a.c.rootDetGlobals[e.g] && a.isUnmodifiedInput(c.Call.Args[0]) {
+					a.handover = append(a.handover, e.g.Name())
+					k = kStable // excused: if it flips, that root-level format takes over
+				}
+				switch {
+				case k == kStable:
+				case k == kU && (res == kStable || res == kU):
+					res = kU
+				default:
+					a.why = append(a.why, fmt.Sprintf("list element %s is %s: %v", e.fn.Name(), k, r.why))
+					return kTop
+				}
+			}
+			return res
+		}
 		// call through a package variable holding a detector closure (e.g. MsAccessAce)
 		if u, ok := c.Call.Value.(*ssa.UnOp); ok && u.Op == token.MUL {
 			if g, ok := u.X.(*ssa.Global); ok {
 				if fn := a.c.closureOfGlobal(g); fn != nil {
-					r := a.c.analyse(fn, ks)
+					r := a.c.analyseGlobal(g, fn, ks)
+					if len(r.handover) > 0 && !a.isUnmodifiedInput(c.Call.Args[0]) {
+						// the excuse "another root-level format takes over" was made for the callee's own header
+						a.why = append(a.why, fmt.Sprintf("%s relies on a hand-over but is not given the unmodified header", g.Name()))
+						return kTop
+					}
 					a.handover = append(a.handover, r.handover...)
 					if r.ret == kU && a.c.rootDetGlobals[g] && a.isUnmodifiedInput(c.Call.Args[0]) {
 						a.handover = append(a.handover, g.Name())
@@ -624,6 +668,10 @@ func (a *analysis) call(c *ssa.Call) kind {
 		}
 	}
 	r := a.c.analyseCtx(callee, ks, fns)
+	if len(r.handover) > 0 && !(len(c.Call.Args) > 0 && a.isUnmodifiedInput(c.Call.Args[0])) {
+		a.why = append(a.why, fmt.Sprintf("callee %s relies on a hand-over but is not given the unmodified header", callee.Name()))
+		return kTop
+	}
 	a.handover = append(a.handover, r.handover...)
 	if r.ret == kTop {
 		a.why = append(a.why, fmt.Sprintf("callee %s is TOP: %v", callee.Name(), r.why))
@@ -734,6 +782,159 @@ func (c *ctx) closureOfGlobal(g *ssa.Global) *ssa.Function {
 		}
 	}
 	return nil
+}
+
+// elemsOf: v is an element loaded from the list held in a captured variable of
+// the closure under analysis; the detectors that list holds.
+func (a *analysis) elemsOf(v ssa.Value) []elemFn {
+	ld, ok := v.(*ssa.UnOp)
+	if !ok || ld.Op != token.MUL {
+		return nil
+	}
+	ia, ok := ld.X.(*ssa.IndexAddr)
+	if !ok {
+		return nil
+	}
+	lst, ok := ia.X.(*ssa.UnOp)
+	if !ok || lst.Op != token.MUL {
+		return nil
+	}
+	fv, ok := lst.X.(*ssa.FreeVar)
+	if !ok {
+		return nil
+	}
+	for i, x := range a.f.FreeVars {
+		if x == fv {
+			return a.fvElems[i]
+		}
+	}
+	return nil
+}
+
+// analyseGlobal analyses the closure fn held by the package-level detector
+// variable g, with the detector lists its constructor call captured.
+func (c *ctx) analyseGlobal(g *ssa.Global, fn *ssa.Function, argK []kind) fnResult {
+	if els := c.closureElems(g, fn); len(els) > 0 {
+		c.curFvElems, c.curTag = els, "|global="+g.Name()
+	}
+	return c.analyseCtx(fn, argK, nil)
+}
+
+// closureElems: g = ctor(list...) in the package initialiser, ctor stores its
+// variadic parameter of functions once in a cell captured by its only closure
+// fn, and the call passes a literal list of function constants and of loads of
+// package-level detector variables: the elements, per captured variable.
+func (c *ctx) closureElems(g *ssa.Global, fn *ssa.Function) map[int][]elemFn {
+	init := g.Pkg.Func("init")
+	var call *ssa.Call
+	for _, b := range init.Blocks {
+		for _, in := range b.Instrs {
+			if st, ok := in.(*ssa.Store); ok && st.Addr == ssa.Value(g) {
+				if call != nil {
+					return nil
+				}
+				call, _ = st.Val.(*ssa.Call)
+			}
+		}
+	}
+	if call == nil {
+		return nil
+	}
+	ctor := call.Call.StaticCallee()
+	if ctor == nil || fn.Parent() != ctor {
+		return nil
+	}
+	var mc *ssa.MakeClosure
+	for _, b := range ctor.Blocks {
+		for _, in := range b.Instrs {
+			if m, ok := in.(*ssa.MakeClosure); ok && m.Fn == ssa.Value(fn) {
+				mc = m
+			}
+		}
+	}
+	if mc == nil {
+		return nil
+	}
+	out := map[int][]elemFn{}
+	for i, bnd := range mc.Bindings {
+		cell, ok := bnd.(*ssa.Alloc)
+		if !ok {
+			continue
+		}
+		st := writeOnce(cell)
+		if st == nil {
+			continue
+		}
+		pi := -1
+		for j, p := range ctor.Params {
+			if st.Val == ssa.Value(p) {
+				pi = j
+			}
+		}
+		if pi < 0 {
+			continue
+		}
+		sl, ok := ctor.Params[pi].Type().Underlying().(*types.Slice)
+		if !ok {
+			continue
+		}
+		if _, isFn := sl.Elem().Underlying().(*types.Signature); !isFn {
+			continue
+		}
+		// the closure must not write the captured list
+		wr := false
+		for _, ref := range *fn.FreeVars[i].Referrers() {
+			if s2, ok := ref.(*ssa.Store); ok && s2.Addr == ssa.Value(fn.FreeVars[i]) {
+				wr = true
+			}
+		}
+		arg, ok := call.Call.Args[pi].(*ssa.Slice)
+		if wr || !ok {
+			return nil
+		}
+		arr, ok := arg.X.(*ssa.Alloc)
+		if !ok {
+			return nil
+		}
+		var els []elemFn
+		for _, ref := range *arr.Referrers() {
+			ia, ok := ref.(*ssa.IndexAddr)
+			if !ok {
+				continue
+			}
+			for _, r2 := range *ia.Referrers() {
+				s2, ok := r2.(*ssa.Store)
+				if !ok {
+					continue
+				}
+				v := s2.Val
+				if ct, ok := v.(*ssa.ChangeType); ok {
+					v = ct.X
+				}
+				switch e := v.(type) {
+				case *ssa.Function:
+					els = append(els, elemFn{fn: e})
+				case *ssa.UnOp:
+					eg, isG := e.X.(*ssa.Global)
+					if !isG {
+						return nil
+					}
+					ef := c.closureOfGlobal(eg)
+					if ef == nil {
+						return nil
+					}
+					els = append(els, elemFn{fn: ef, g: eg})
+				default:
+					return nil
+				}
+			}
+		}
+		if len(els) == 0 {
+			return nil
+		}
+		out[i] = els
+	}
+	return out
 }
 
 // retSet: possible constant results when control enters blk from pred.
@@ -857,7 +1058,9 @@ func writeOnce(a *ssa.Alloc) *ssa.Store {
 func (c *ctx) analyseCtx(f *ssa.Function, argK []kind, fns []*ssa.Function) fnResult {
 	fvK := c.curFvK
 	c.curFvK = nil
-	key := f.String() + fmt.Sprint(argK) + fmt.Sprint(fvK)
+	fvElems, tag := c.curFvElems, c.curTag
+	c.curFvElems, c.curTag = nil, ""
+	key := f.String() + fmt.Sprint(argK) + fmt.Sprint(fvK) + tag
 	for i, g := range fns {
 		if g != nil {
 			key += fmt.Sprintf("|%d=%s", i, g.String())
@@ -886,7 +1089,7 @@ func (c *ctx) analyseCtx(f *ssa.Function, argK []kind, fns []*ssa.Function) fnRe
 		c.memo[key] = res
 		return res
 	}
-	a := &analysis{c: c, f: f, argK: argK, fnArgs: fns, fvK: fvK, guess: map[*ssa.Phi]kind{}, tainted: map[*ssa.Phi]bool{}, sofSrc: map[ssa.Value]ssa.Value{}}
+	a := &analysis{c: c, f: f, argK: argK, fnArgs: fns, fvK: fvK, fvElems: fvElems, guess: map[*ssa.Phi]kind{}, tainted: map[*ssa.Phi]bool{}, sofSrc: map[ssa.Value]ssa.Value{}}
 	if !a.classify() {
 		// the phi classification did not reach a fixpoint: nothing may be concluded from the last guesses
 		res.ret = kTop
@@ -1321,6 +1524,17 @@ func New(prog *ssa.Program, rootFns map[*ssa.Function]bool, rootGlobals map[*ssa
 // Analyse decides one detector body (header parameter growing, limit unconstrained).
 func (e *Engine) Analyse(fn *ssa.Function) Verdict {
 	r := e.c.analyse(fn, []kind{kExt, kTop})
+	v := Verdict{Fn: fn, Kind: r.ret.String(), Why: r.why, Handover: r.handover}
+	v.Monotone = r.ret == kStable || r.ret == kU
+	sort.Strings(v.Handover)
+	return v
+}
+
+// AnalyseGlobal decides the detector held by the package-level variable g (a
+// closure built by a constructor in the package initialiser, possibly a
+// combinator over other detectors).
+func (e *Engine) AnalyseGlobal(g *ssa.Global, fn *ssa.Function) Verdict {
+	r := e.c.analyseGlobal(g, fn, []kind{kExt, kTop})
 	v := Verdict{Fn: fn, Kind: r.ret.String(), Why: r.why, Handover: r.handover}
 	v.Monotone = r.ret == kStable || r.ret == kU
 	sort.Strings(v.Handover)
